@@ -70,7 +70,10 @@ def tr_init(c, fn):
         if d is None:
             raise Bad("__init__ param without default: " + x.arg)
         ann = lit(x.annotation) if x.annotation is not None else None
-        params.append({"name": x.arg, "default": lit(d), "ann": ann})
+        dv = lit(d)
+        if not (dv is None or isinstance(dv, (str, int, float))) or isinstance(dv, bool):
+            raise Bad("parameter %s has a non-scalar (shared, mutable?) default %r" % (x.arg, dv))
+        params.append({"name": x.arg, "default": dv, "ann": ann})
     if a.kwarg is None or a.kwarg.arg != "kwargs_" or a.vararg is not None or a.kwonlyargs:
         raise Bad("__init__ signature")
     assign = []
